@@ -1,0 +1,326 @@
+//go:build verif
+
+// Contracts for the verification machinery in /verif (comment-only; no declarations).
+// C14: the connection manager trims only eligible peers, lowest value first.
+
+package connmgr
+
+// ---------------------------------------------------------------------------
+// protection: a peer is protected iff it has an entry in cm.protected; the entry holds its protection tags
+
+//@ lockinv BasicConnMgr.plk(cm *BasicConnMgr) = cm.protected != nil &&
+//@     (forall x peer.ID :: has(cm.protected, x) ==> cm.protected[x] != nil && cm.protected[x] != cm.protected) &&
+//@     (forall x peer.ID, y peer.ID :: has(cm.protected, x) && has(cm.protected, y) && x != y ==> cm.protected[x] != cm.protected[y])
+
+//@ pred protBy(cm *BasicConnMgr, x peer.ID, t string) = has(cm.protected, x) && has(cm.protected[x], t)
+
+//@ func (cm *BasicConnMgr) Protect
+//@ prop C14
+//@ ensures protBy(cm, id, tag)
+//@ ensures forall x peer.ID, t string :: old(protBy(cm, x, t)) ==> protBy(cm, x, t)
+//@ ensures forall x peer.ID, t string :: (x != id || t != tag) && protBy(cm, x, t) ==> old(protBy(cm, x, t))
+//@ ensures forall x peer.ID :: x != id ==> has(cm.protected, x) == old(has(cm.protected, x))
+//@ modifies contents(cm.protected), contents(cm.protected[id])
+
+//@ func (cm *BasicConnMgr) Unprotect
+//@ prop C14
+//@ ensures protected == has(cm.protected, id)
+//@ ensures !protBy(cm, id, tag)
+//@ ensures forall x peer.ID, t string :: (x != id || t != tag) ==> protBy(cm, x, t) == old(protBy(cm, x, t))
+//@ ensures has(cm.protected, id) <==> (exists t string :: t != tag && old(protBy(cm, id, t)))
+//@ ensures forall x peer.ID :: x != id ==> has(cm.protected, x) == old(has(cm.protected, x))
+//@ modifies contents(cm.protected), contents(cm.protected[id])
+
+//@ func (cm *BasicConnMgr) IsProtected
+//@ prop C14
+//@ ensures tag == "" ==> protected == has(cm.protected, id)
+//@ ensures tag != "" ==> protected == protBy(cm, id, tag)
+//@ modifies nothing
+
+// ---------------------------------------------------------------------------
+// segments: peers are spread over 256 buckets by the last byte of the peer id
+
+//@ pred bidx(p peer.ID) = p[len(p)-1]
+
+//@ func (ss *segments) get
+//@ prop C14
+//@ ensures 0 <= bidx(p) && bidx(p) < 256 && result == ss.buckets[bidx(p)]
+//@ modifies nothing
+
+//@ pred seg(cm *BasicConnMgr, p peer.ID) = cm.segments.buckets[bidx(p)]
+//@ pred tracked(cm *BasicConnMgr, p peer.ID) = has(seg(cm, p).peers, p)
+//@ pred pinfo(cm *BasicConnMgr, p peer.ID) = seg(cm, p).peers[p]
+//@ pred valOf(cm *BasicConnMgr, p peer.ID) = ite(tracked(cm, p), pinfo(cm, p).value, 0)
+//@ pred tagOf(cm *BasicConnMgr, p peer.ID, t string) = ite(tracked(cm, p), pinfo(cm, p).tags[t], 0)
+
+// data-structure invariant of the segments: every entry is keyed by its own peer id
+//@ pred wfIds() = forall s *segment, x peer.ID :: has(s.peers, x) ==> s.peers[x] != nil && s.peers[x].id == x
+// ... every peer entry holds only connections to its own peer, and owns its connection map
+//@ pred wfConns() = (forall x *peerInfo, c network.Conn :: has(x.conns, c) ==> c.RemotePeer() == x.id) &&
+//@     (forall a *peerInfo, b *peerInfo :: a != b && a.conns != nil ==> a.conns != b.conns)
+
+// A-MAPTYPE (typing fact, true of every Go heap): maps of the three types map[network.Conn]time.Time (conns), map[string]int
+// (tags) and map[peer.ID]*peerInfo (peers) are never the same object
+//@ pred mapTypes() = (forall x *peerInfo, s *segment :: (x.conns == nil || x.conns != s.peers) && (x.tags == nil || x.tags != s.peers)) &&
+//@     (forall x *peerInfo, y *peerInfo :: x.tags == nil || x.tags != y.conns)
+
+// lookup-or-create of a peer entry: an existing entry is returned untouched; a new one is a temporary entry with value 0,
+// no tags and no connections, first seen now
+//@ func (s *segment) tagInfoFor
+//@ prop C14
+//@ requires wfIds() && mapTypes() && wfConns()
+//@ ensures has(s.peers, p) && result == s.peers[p] && result != nil && result.id == p
+//@ ensures old(has(s.peers, p)) ==> result == old(s.peers[p])
+//@ ensures !old(has(s.peers, p)) ==> fresh(result) && result.temp && result.value == 0 && result.firstSeen == now &&
+//@         result.tags != nil && fresh(result.tags) && result.conns != nil && fresh(result.conns) &&
+//@         (forall t string :: !has(result.tags, t)) && (forall c network.Conn :: !has(result.conns, c))
+//@ ensures wfIds() && wfConns()
+//@ modifies contents(s.peers)
+
+//@ func (cm *BasicConnMgr) TagPeer
+//@ prop C14
+//@ requires wfIds() && mapTypes() && wfConns()
+//@ ensures wfIds() && wfConns()
+//@ ensures tracked(cm, p)
+//@ ensures tagOf(cm, p, tag) == val
+//@ ensures valOf(cm, p) == old(valOf(cm, p)) - old(tagOf(cm, p, tag)) + val
+//@ ensures forall t string :: t != tag ==> tagOf(cm, p, t) == old(tagOf(cm, p, t))
+//@ modifies contents(seg(cm, p).peers), pinfo(cm, p).value, contents(pinfo(cm, p).tags)
+
+//@ func (cm *BasicConnMgr) UntagPeer
+//@ prop C14
+//@ requires wfIds() && mapTypes() && wfConns()
+//@ ensures wfIds() && wfConns()
+//@ ensures tracked(cm, p) == old(tracked(cm, p))
+//@ ensures tagOf(cm, p, tag) == 0
+//@ ensures valOf(cm, p) == old(valOf(cm, p)) - old(tagOf(cm, p, tag))
+//@ ensures forall t string :: t != tag ==> tagOf(cm, p, t) == old(tagOf(cm, p, t))
+//@ modifies pinfo(cm, p).value, contents(pinfo(cm, p).tags)
+
+//@ func (cm *BasicConnMgr) UpsertTag
+//@ prop C14
+//@ requires wfIds() && mapTypes() && wfConns()
+//@ ensures wfIds() && wfConns()
+//@ ensures tracked(cm, p)
+//@ ensures called(upsert, 0) && arg(upsert, 0, 0) == old(tagOf(cm, p, tag))
+//@ ensures tagOf(cm, p, tag) == ret(upsert, 0, 0)
+//@ ensures valOf(cm, p) == old(valOf(cm, p)) - old(tagOf(cm, p, tag)) + ret(upsert, 0, 0)
+//@ ensures forall t string :: t != tag ==> tagOf(cm, p, t) == old(tagOf(cm, p, t))
+//@ modifies contents(seg(cm, p).peers), pinfo(cm, p).value, contents(pinfo(cm, p).tags)
+
+// ---------------------------------------------------------------------------
+// notifications
+
+//@ pred mgr(nn *cmNotifee) = BasicConnMgr(nn)
+//@ pred count(cm *BasicConnMgr) = ghost.atomval(&cm.connCount)
+//@ pred hasConn(cm *BasicConnMgr, c network.Conn) = tracked(cm, c.RemotePeer()) && has(pinfo(cm, c.RemotePeer()).conns, c)
+
+//@ func (nn *cmNotifee) Connected
+//@ prop C14
+//@ requires wfIds() && mapTypes() && wfConns()
+//@ ensures wfIds() && wfConns()
+//@ ensures hasConn(mgr(nn), c)
+//@ ensures old(hasConn(mgr(nn), c)) ==> count(mgr(nn)) == old(count(mgr(nn)))
+//@ ensures !old(hasConn(mgr(nn), c)) ==> count(mgr(nn)) == old(count(mgr(nn))) + 1
+//@ ensures forall x network.Conn :: x != c ==> has(pinfo(mgr(nn), c.RemotePeer()).conns, x) ==
+//@         old(tracked(mgr(nn), c.RemotePeer()) && has(pinfo(mgr(nn), c.RemotePeer()).conns, x))
+//@ ensures old(tracked(mgr(nn), c.RemotePeer())) ==> pinfo(mgr(nn), c.RemotePeer()) == old(pinfo(mgr(nn), c.RemotePeer()))
+//@ ensures valOf(mgr(nn), c.RemotePeer()) == old(valOf(mgr(nn), c.RemotePeer()))
+//@ ensures forall t string :: tagOf(mgr(nn), c.RemotePeer(), t) == old(tagOf(mgr(nn), c.RemotePeer(), t))
+// the grace period of a peer starts with its first connection: firstSeen is kept for a peer that is already connected,
+// and is a clock reading taken during this call otherwise
+//@ ensures !pinfo(mgr(nn), c.RemotePeer()).temp
+//@ ensures old(tracked(mgr(nn), c.RemotePeer())) && !old(pinfo(mgr(nn), c.RemotePeer()).temp) ==>
+//@         pinfo(mgr(nn), c.RemotePeer()).firstSeen == old(pinfo(mgr(nn), c.RemotePeer()).firstSeen)
+//@ ensures !old(tracked(mgr(nn), c.RemotePeer())) ==> called(Now, 0) && pinfo(mgr(nn), c.RemotePeer()).firstSeen == ret(Now, 0, 0)
+//@ ensures old(tracked(mgr(nn), c.RemotePeer())) && old(pinfo(mgr(nn), c.RemotePeer()).temp) ==>
+//@         called(Now, 1) && pinfo(mgr(nn), c.RemotePeer()).firstSeen == ret(Now, 1, 0)
+//@ modifies contents(seg(mgr(nn), c.RemotePeer()).peers), pinfo(mgr(nn), c.RemotePeer()).temp, pinfo(mgr(nn), c.RemotePeer()).firstSeen,
+//@         contents(pinfo(mgr(nn), c.RemotePeer()).conns), ghost.atomval(&mgr(nn).connCount)
+
+//@ func (nn *cmNotifee) Disconnected
+//@ prop C14
+//@ requires wfIds() && mapTypes() && wfConns()
+//@ ensures wfIds() && wfConns()
+//@ ensures !hasConn(mgr(nn), c)
+//@ ensures old(hasConn(mgr(nn), c)) ==> count(mgr(nn)) == old(count(mgr(nn))) - 1
+//@ ensures !old(hasConn(mgr(nn), c)) ==> count(mgr(nn)) == old(count(mgr(nn))) && tracked(mgr(nn), c.RemotePeer()) == old(tracked(mgr(nn), c.RemotePeer()))
+//@ ensures forall x network.Conn :: x != c && x.RemotePeer() == c.RemotePeer() ==> hasConn(mgr(nn), x) == old(hasConn(mgr(nn), x))
+// the peer entry is dropped exactly when its last connection goes
+//@ ensures old(hasConn(mgr(nn), c)) ==> (tracked(mgr(nn), c.RemotePeer()) <==>
+//@         (exists x network.Conn :: x != c && old(has(pinfo(mgr(nn), c.RemotePeer()).conns, x))))
+//@ ensures tracked(mgr(nn), c.RemotePeer()) ==> pinfo(mgr(nn), c.RemotePeer()) == old(pinfo(mgr(nn), c.RemotePeer()))
+//@ modifies contents(seg(mgr(nn), c.RemotePeer()).peers), contents(pinfo(mgr(nn), c.RemotePeer()).conns), ghost.atomval(&mgr(nn).connCount)
+
+// ---------------------------------------------------------------------------
+// trimming
+
+// the order peers are trimmed in: temporary entries first, then by ascending value
+//@ pred before(a *peerInfo, b *peerInfo) = (a.temp && !b.temp) || (a.temp == b.temp && a.value < b.value)
+
+//@ func (ss *segments) countPeers
+//@ prop C14
+//@ loop 0 invariant count >= 0
+//@ ensures count >= 0
+//@ modifies nothing
+
+//@ func (p peerInfos) SortByValueAndStreams
+//@ prop C14
+//@ trusted
+//@ ensures forall i int :: 0 <= i && i < len(p) ==> (exists j int :: 0 <= j && j < len(p) && p[i] == old(p[j]))
+//@ ensures forall j int :: 0 <= j && j < len(p) ==> (exists i int :: 0 <= i && i < len(p) && p[i] == old(p[j]))
+//@ ensures forall i int, j int :: 0 <= i && i < j && j < len(p) ==> !before(p[j], p[i])
+//@ modifies elems(p)
+//@ closure 0
+//@ requires 0 <= i && i < len(p) && 0 <= j && j < len(p) && p[i] != nil && p[j] != nil
+//@ ensures before(p[i], p[j]) ==> result
+//@ ensures before(p[j], p[i]) ==> !result
+//@ modifies nothing
+
+//@ pred elig(cm *BasicConnMgr, x *peerInfo, g time.Time) = !has(cm.protected, x.id) && !x.firstSeen.After(g)
+
+//@ func (cm *BasicConnMgr) getConnsToClose
+//@ prop C14
+//@ requires wfIds() && mapTypes() && wfConns()
+// disabled manager, or at/below the low watermark: nothing is trimmed
+//@ ensures cm.cfg.lowWater == 0 || cm.cfg.highWater == 0 ==> len(result) == 0
+//@ ensures count(cm) <= cm.cfg.lowWater ==> len(result) == 0
+// no connection to a protected peer is returned
+//@ ensures forall j int :: 0 <= j && j < len(result) ==> !has(cm.protected, result[j].RemotePeer())
+// every connection returned belongs to a candidate; every candidate is neither protected nor inside its grace period
+// (first seen later than now - gracePeriod)
+//@ ensures len(result) > 0 ==> called(Now, 0) && gracePeriodStart == ret(Now, 0, 0) - cm.cfg.gracePeriod &&
+//@         (forall i int :: 0 <= i && i < len(candidates) ==> candidates[i] != nil && elig(cm, candidates[i], gracePeriodStart))
+// lowest value first: the peers whose connections are returned form a prefix [0, k) of the sorted candidate list, so no
+// candidate that is kept (index >= k) precedes a trimmed one in the trim order (temporary entries first, then ascending
+// value); the selection stops only when the target is reached or no candidate is left
+//@ ensures called(SortByValueAndStreams, 0) ==> (forall i int, m int :: 0 <= i && i < m && m < len(candidates) ==> !before(candidates[m], candidates[i]))
+// (ncalls(get, 0) = number of candidates the selection loop has processed = k)
+//@ ensures len(result) > 0 ==> 0 <= ncalls(get, 0) && ncalls(get, 0) <= len(candidates) && (target <= 0 || ncalls(get, 0) == len(candidates))
+//@ ensures forall j int :: 0 <= j && j < len(result) ==> (exists i int :: 0 <= i && i < ncalls(get, 0) && has(candidates[i].conns, result[j]))
+// the function only deletes entries (expired temporary ones); the protection table is not touched
+//@ ensures wfIds() && wfConns()
+//@ ensures mapTypes() && (forall s *segment :: s.peers == old(s.peers))
+//@ ensures forall x peer.ID :: has(cm.protected, x) == old(has(cm.protected, x))
+//@ loop 0 invariant fresh(candidates) && (forall i int :: 0 <= i && i < len(candidates) ==> candidates[i] != nil && elig(cm, candidates[i], gracePeriodStart))
+//@ loop 1 invariant fresh(candidates) && (forall i int :: 0 <= i && i < len(candidates) ==> candidates[i] != nil && elig(cm, candidates[i], gracePeriodStart))
+//@ loop 2 invariant forall i int :: 0 <= i && i < len(candidates) ==> candidates[i] != nil && elig(cm, candidates[i], gracePeriodStart)
+//@ loop 2 invariant ncalls(get, 0) == idx2 && wfIds() && wfConns()
+//@ loop 2 invariant forall j int :: 0 <= j && j < len(selected) ==> !has(cm.protected, selected[j].RemotePeer())
+//@ loop 2 invariant forall x peer.ID :: has(cm.protected, x) == old(has(cm.protected, x))
+//@ loop 2 invariant forall j int :: 0 <= j && j < len(selected) ==> (exists i int :: 0 <= i && i < idx2 && has(candidates[i].conns, selected[j]))
+//@ loop 2 invariant forall i int, j int :: 0 <= i && i < j && j < len(candidates) ==> !before(candidates[j], candidates[i])
+// what one iteration of the selection loop does: every connection of the processed candidate is appended
+//@ loop 2 iteration forall c network.Conn :: has(inf.conns, c) ==> (exists j int :: 0 <= j && j < len(selected) && selected[j] == c)
+//@ loop 3 invariant forall c network.Conn :: has(inf.conns, c) && visited(3, c) ==> (exists j int :: 0 <= j && j < len(selected) && selected[j] == c)
+//@ loop 3 invariant forall j int :: 0 <= j && j < len(selected) ==> (exists i int :: 0 <= i && i <= idx2 && has(candidates[i].conns, selected[j]))
+//@ loop 3 invariant forall j int :: 0 <= j && j < len(selected) ==> !has(cm.protected, selected[j].RemotePeer())
+//@ modifies segment.peers
+
+// one trim: closes exactly the connections getConnsToClose returned, hence never a connection of a protected peer
+//@ func (cm *BasicConnMgr) trim
+//@ prop C14
+//@ requires wfIds() && mapTypes() && wfConns()
+//@ ensures forall j int :: 0 <= j && j < len(ret(getConnsToClose, 0, 0)) ==> ghost.closed(ret(getConnsToClose, 0, 0)[j])
+//@ ensures forall c network.Conn :: ghost.closed(c) && !old(ghost.closed(c)) ==>
+//@         (exists j int :: 0 <= j && j < len(ret(getConnsToClose, 0, 0)) && ret(getConnsToClose, 0, 0)[j] == c)
+//@ ensures forall c network.Conn :: ghost.closed(c) && !old(ghost.closed(c)) ==> !has(cm.protected, c.RemotePeer())
+//@ ensures forall c network.Conn :: old(ghost.closed(c)) ==> ghost.closed(c)
+//@ ensures cm.cfg.lowWater == 0 || cm.cfg.highWater == 0 || count(cm) <= cm.cfg.lowWater ==> (forall c network.Conn :: ghost.closed(c) == old(ghost.closed(c)))
+//@ ensures wfIds() && wfConns()
+//@ ensures mapTypes() && (forall s *segment :: s.peers == old(s.peers))
+//@ ensures forall x peer.ID :: has(cm.protected, x) == old(has(cm.protected, x))
+//@ loop 0 invariant forall j int :: 0 <= j && j < idx0 ==> ghost.closed(ret(getConnsToClose, 0, 0)[j])
+//@ loop 0 invariant forall c network.Conn :: ghost.closed(c) && !old(ghost.closed(c)) ==>
+//@         (exists j int :: 0 <= j && j < idx0 && ret(getConnsToClose, 0, 0)[j] == c)
+//@ loop 0 invariant forall c network.Conn :: old(ghost.closed(c)) ==> ghost.closed(c)
+//@ modifies segment.peers, ghost.closed(_)
+
+// emergency selection (ForceTrim): grace period and silence period are ignored; protected peers are considered only in a
+// second pass (it starts with the second cm.plk.RLock(), RLock#1)
+//@ func (cm *BasicConnMgr) getConnsToCloseEmergency
+//@ prop C14
+//@ requires wfIds() && wfConns()
+// without a second pass, no connection to a protected peer is returned
+//@ ensures !called(RLock, 1) ==> (forall j int :: 0 <= j && j < len(result) ==> !has(cm.protected, result[j].RemotePeer()))
+// the first pass skips protected peers only: an unprotected peer is appended to the candidate list
+//@ loop 1 iteration !has(cm.protected, id) ==> len(candidates) > 0 && candidates[len(candidates)-1] == inf
+// the second pass (the only place where protected peers are selected) starts only after the first selection loop has
+// processed every candidate of the first pass (it was not left through `break`)
+//@ assert before RLock#1: idx2 == len(arg(SortByValueAndStreams, 0, 0))
+// each candidate the selection loops process has all of its connections appended
+//@ loop 2 iteration forall c network.Conn :: has(inf.conns, c) ==> (exists j int :: 0 <= j && j < len(selected) && selected[j] == c)
+//@ loop 6 iteration forall c network.Conn :: has(inf.conns, c) ==> (exists j int :: 0 <= j && j < len(selected) && selected[j] == c)
+//@ loop 0 invariant fresh(candidates) && (forall i int :: 0 <= i && i < len(candidates) ==> candidates[i] != nil && !has(cm.protected, candidates[i].id))
+//@ loop 1 invariant fresh(candidates) && (forall i int :: 0 <= i && i < len(candidates) ==> candidates[i] != nil && !has(cm.protected, candidates[i].id))
+//@ loop 2 invariant forall i int :: 0 <= i && i < len(candidates) ==> candidates[i] != nil && !has(cm.protected, candidates[i].id)
+//@ loop 2 invariant forall j int :: 0 <= j && j < len(selected) ==> !has(cm.protected, selected[j].RemotePeer())
+//@ loop 3 invariant forall c network.Conn :: has(inf.conns, c) && visited(3, c) ==> (exists j int :: 0 <= j && j < len(selected) && selected[j] == c)
+//@ loop 3 invariant forall j int :: 0 <= j && j < len(selected) ==> !has(cm.protected, selected[j].RemotePeer())
+//@ loop 4 invariant fresh(candidates)
+//@ loop 5 invariant fresh(candidates)
+//@ loop 7 invariant forall c network.Conn :: has(inf.conns, c) && visited(7, c) ==> (exists j int :: 0 <= j && j < len(selected) && selected[j] == c)
+//@ modifies nothing
+
+// ForceTrim (memory emergency): nothing is closed when the connection count is below the low watermark; otherwise exactly
+// the connections selected by getConnsToCloseEmergency(count - lowWater) are closed
+//@ func (cm *BasicConnMgr) ForceTrim
+//@ prop C14
+//@ requires wfIds() && wfConns()
+//@ ensures count(cm) < cm.cfg.lowWater ==> !called(getConnsToCloseEmergency, 0) && (forall c network.Conn :: ghost.closed(c) == old(ghost.closed(c)))
+//@ ensures called(getConnsToCloseEmergency, 0) ==> arg(getConnsToCloseEmergency, 0, 0) == cm && arg(getConnsToCloseEmergency, 0, 1) == count(cm) - cm.cfg.lowWater
+//@ ensures called(getConnsToCloseEmergency, 0) ==> (forall j int :: 0 <= j && j < len(ret(getConnsToCloseEmergency, 0, 0)) ==> ghost.closed(ret(getConnsToCloseEmergency, 0, 0)[j]))
+//@ ensures forall c network.Conn :: ghost.closed(c) && !old(ghost.closed(c)) ==> called(getConnsToCloseEmergency, 0) &&
+//@         (exists j int :: 0 <= j && j < len(ret(getConnsToCloseEmergency, 0, 0)) && ret(getConnsToCloseEmergency, 0, 0)[j] == c)
+//@ ensures forall c network.Conn :: old(ghost.closed(c)) ==> ghost.closed(c)
+//@ loop 0 invariant forall j int :: 0 <= j && j < idx0 ==> ghost.closed(ret(getConnsToCloseEmergency, 0, 0)[j])
+//@ loop 0 invariant forall c network.Conn :: ghost.closed(c) && !old(ghost.closed(c)) ==>
+//@         (exists j int :: 0 <= j && j < idx0 && ret(getConnsToCloseEmergency, 0, 0)[j] == c)
+//@ loop 0 invariant forall c network.Conn :: old(ghost.closed(c)) ==> ghost.closed(c)
+//@ modifies ghost.closed(_), cm.lastTrim
+
+// TrimOpenConns -> doTrim -> trim: whatever the trim-count handshake decides, only connections of unprotected peers are
+// closed, and none when the manager is disabled or at/below the low watermark
+//@ func (cm *BasicConnMgr) doTrim
+//@ prop C14
+//@ requires wfIds() && mapTypes() && wfConns()
+//@ ensures forall c network.Conn :: ghost.closed(c) && !old(ghost.closed(c)) ==> !has(cm.protected, c.RemotePeer())
+//@ ensures forall c network.Conn :: old(ghost.closed(c)) ==> ghost.closed(c)
+//@ ensures cm.cfg.lowWater == 0 || cm.cfg.highWater == 0 || count(cm) <= cm.cfg.lowWater ==> (forall c network.Conn :: ghost.closed(c) == old(ghost.closed(c)))
+//@ ensures wfIds() && wfConns()
+//@ ensures mapTypes() && (forall s *segment :: s.peers == old(s.peers))
+//@ ensures forall x peer.ID :: has(cm.protected, x) == old(has(cm.protected, x))
+//@ modifies segment.peers, ghost.closed(_), cm.lastTrim
+
+//@ func (cm *BasicConnMgr) TrimOpenConns
+//@ prop C14
+//@ requires wfIds() && mapTypes() && wfConns()
+//@ ensures forall c network.Conn :: ghost.closed(c) && !old(ghost.closed(c)) ==> !has(cm.protected, c.RemotePeer())
+//@ ensures forall c network.Conn :: old(ghost.closed(c)) ==> ghost.closed(c)
+//@ ensures cm.cfg.lowWater == 0 || cm.cfg.highWater == 0 || count(cm) <= cm.cfg.lowWater ==> (forall c network.Conn :: ghost.closed(c) == old(ghost.closed(c)))
+//@ ensures wfIds() && wfConns()
+//@ ensures mapTypes() && (forall s *segment :: s.peers == old(s.peers))
+//@ modifies segment.peers, ghost.closed(_), cm.lastTrim
+
+// base case of the data-structure invariants: a new manager has 256 fresh buckets with empty peer maps and an empty
+// protection table
+//@ func NewConnManager
+//@ prop C14
+//@ opaque NewDecayer
+//@ requires wfIds() && wfConns() && mapTypes()
+//@ ensures result1 == nil ==> result0 != nil && fresh(result0) && result0.protected != nil && (forall x peer.ID :: !has(result0.protected, x))
+//@ ensures result1 == nil ==> (forall b int :: 0 <= b && b < 256 ==> result0.segments.buckets[b] != nil && result0.segments.buckets[b].peers != nil &&
+//@         (forall x peer.ID :: !has(result0.segments.buckets[b].peers, x)))
+//@ ensures wfIds() && wfConns() && mapTypes()
+//@ loop 1 invariant cm != nil && fresh(cm) && 0 <= idx1 && idx1 <= 256 && wfIds() && wfConns() && mapTypes() && cm.protected != nil && fresh(cm.protected) && (forall x peer.ID :: !has(cm.protected, x))
+//@ loop 1 invariant forall b int :: 0 <= b && b < idx1 ==> cm.segments.buckets[b] != nil && fresh(cm.segments.buckets[b]) && cm.segments.buckets[b].peers != nil &&
+//@         fresh(cm.segments.buckets[b].peers) && (forall x peer.ID :: !has(cm.segments.buckets[b].peers, x))
+//@ noframe
+
+// the periodic trimmer runs a trim only when the connection count has reached the high watermark
+//@ func (cm *BasicConnMgr) background
+//@ prop C14
+//@ requires wfIds() && mapTypes() && wfConns()
+//@ callsite trim#0 requires count(cm) >= cm.cfg.highWater
+//@ loop 0 invariant wfIds() && mapTypes() && wfConns()
+//@ noframe
